@@ -141,7 +141,8 @@ def r06_4(ctx):
         for a, args in pc["actions"]:
             if a.endswith(".push_back") and "Characters(NotSplit" in str(args):
                 pushes += 1
-                if not lt_true(pc["guards"], "0", "len32()"):
+                nonempty = lt_true(pc["guards"], "0", "len32()") or lt_true(pc["guards"], "0", ".len()") or any((not v) and re.search(r"\.is_empty\(\)(#\d+)?$", k) for k, v in pc["guards"].items())
+                if not nonempty:
                     bad = "the remainder of a split text token is enqueued without the non-empty test"
     ctx.floor("R06.4", "remainder-enqueue-paths", pushes, 1)
     ctx.ob("R06.4", "split-remainder-non-empty", bad is None, bad or "SplitWhitespace enqueues the remainder only when len32() > 0")
